@@ -12,9 +12,11 @@
     6c7f5de (a line break gets a position only when it was consumed as a character of the value), 9af0d98
     (character column -> byte column on the node's own line) and 69b377d (anchored scalars start after the anchor).
     Inputs beyond value/line/column: [block] = Style has LiteralStyle or FoldedStyle, [anchor_len] = len(Anchor)
-    (0 = no anchor). *)
+    (0 = no anchor), [dq] = Style has DoubleQuotedStyle (a2fc6da: an escape sequence of a double-quoted scalar is one
+    token standing for the bytes it decodes to). *)
 From Coq Require Import List String Ascii Arith Bool NArith Lia.
 From PintV Require Import Common.Bytes.
+From PintV Require Model.Position.   (* only [Position.unescape] and [Position.strip_prefix] (C06's byte-exact model of the Go helper) *)
 Import ListNotations.
 Open Scope string_scope.
 
@@ -48,6 +50,43 @@ Fixpoint scan_line (line need : string) : string * bool :=
       else scan_line lr need
   | _, _ => (need, false)
   end.
+
+(** The byte loop for a double-quoted scalar (a2fc6da); [skip] = Go's skip counter; [Position.unescape] decodes the
+    escape sequence the rest of the line starts with: (decoded text, source bytes of the sequence). *)
+Definition backslash : ascii := "\"%char.
+
+Fixpoint scan_line_dq (line : string) (skip : nat) (need : string) (matched : bool) : string * bool :=
+  match line with
+  | EmptyString => (need, matched)
+  | String got lr =>
+      match skip with
+      | S k => scan_line_dq lr k need matched
+      | O =>
+          match need with
+          | EmptyString => (need, matched)
+          | String c nr =>
+              if Ascii.eqb got backslash then
+                let '(decoded, size) := Position.unescape line in
+                match decoded, Position.strip_prefix decoded need with
+                | String _ _, Some left_ =>
+                    match left_ with
+                    | EmptyString => (EmptyString, true)
+                    | _ => scan_line_dq lr (Nat.pred size) left_ true
+                    end
+                | _, _ => scan_line_dq lr (Nat.pred size) need matched
+                end
+              else if Ascii.eqb c got then
+                match nr with
+                | EmptyString => (EmptyString, true)
+                | _ => scan_line_dq lr 0 nr true
+                end
+              else scan_line_dq lr 0 need matched
+          end
+      end
+  end.
+
+Definition scan (dq : bool) (line need : string) : string * bool :=
+  if dq then scan_line_dq line 0 need false else scan_line line need.
 
 Definition upd (acc : option (nat * nat)) (l : nat) : option (nat * nat) :=
   match acc with
@@ -121,7 +160,7 @@ Fixpoint skip_blanks (fuel : nat) (line : string) (column : nat) : nat :=
 (** One iteration per source line.  [need] is the not yet matched suffix of the value (non-empty); [lb] = the
     previous iteration consumed a line break of the value ([lineBreak]); [first_line]/[anchor_len]: the node's own
     line (where the column is a character column and an anchor may precede the scalar). *)
-Fixpoint pl_loop (fuel : nat) (lines : list string) (min_col first_line anchor_len : nat) (line_idx col_idx : nat) (need : string)
+Fixpoint pl_loop (fuel : nat) (dq : bool) (lines : list string) (min_col first_line anchor_len : nat) (line_idx col_idx : nat) (need : string)
          (acc : option (nat * nat)) (lb : bool) : option (option (nat * nat)) :=
   match fuel with
   | 0 => Some acc
@@ -137,9 +176,9 @@ Fixpoint pl_loop (fuel : nat) (lines : list string) (min_col first_line anchor_l
               if (Ascii.eqb c sp || Ascii.eqb c nl)%bool then
                 match nr with
                 | EmptyString => Some acc
-                | _ => pl_loop fuel' lines min_col first_line anchor_len (S line_idx) min_col nr acc true
+                | _ => pl_loop fuel' dq lines min_col first_line anchor_len (S line_idx) min_col nr acc true
                 end
-              else pl_loop fuel' lines min_col first_line anchor_len (S line_idx) min_col need acc false
+              else pl_loop fuel' dq lines min_col first_line anchor_len (S line_idx) min_col need acc false
           | EmptyString => Some acc
           end in
         if Nat.eqb (String.length line) 0 then next need acc1
@@ -156,7 +195,7 @@ Fixpoint pl_loop (fuel : nat) (lines : list string) (min_col first_line anchor_l
             let ls := count_leading_space rest in
             let vs := count_leading_space need in
             let rest := if Nat.ltb vs ls then drop (ls - vs) rest else rest in
-            let '(need', matched) := scan_line rest need in
+            let '(need', matched) := scan dq rest need in
             let acc2 := if matched then upd acc1 line_idx else acc1 in
             match need' with
             | EmptyString => Some acc2
@@ -165,14 +204,14 @@ Fixpoint pl_loop (fuel : nat) (lines : list string) (min_col first_line anchor_l
   end.
 
 (** (first, last) of NewPositionRange(lines, val, minColumn).Lines(); None = panic. *)
-Definition pos_lines (lines : list string) (value : string) (line col min_col : nat) (block : bool) (anchor_len : nat)
+Definition pos_lines (lines : list string) (value : string) (line col min_col : nat) (block : bool) (anchor_len : nat) (dq : bool)
   : option (nat * nat) :=
   match value with
   | EmptyString => Some (line, line)
   | _ =>
       let start := if block then S line else line in
       let col0 := if block then min_col else col in
-      match pl_loop (S (List.length lines)) lines min_col line anchor_len start col0 value None false with
+      match pl_loop (S (List.length lines)) dq lines min_col line anchor_len start col0 value None false with
       | None => None
       | Some None => Some (line, line)
       | Some (Some r) => Some r
